@@ -117,7 +117,8 @@ func buildProperty(ww *conversionVisitor, node *sourcewalk.PropertyNode) (*descr
 		// Add validation rules based on the type of the array regardless of array
 		// rules being specified. This is specifically to cover cases where types
 		// are created from other primitives, like id62 having a string validation.
-		if validateExt != nil {
+		if validateExt != nil || st.Array.Rules != nil {
+			// the array's own rules apply whether or not the items carry any
 			repeated := &validate.RepeatedRules{
 				Items: validateExt,
 			}
